@@ -174,10 +174,11 @@ impl IndicatorInstance for TrendStrengthIndexInstance {
 		let sma = self.inverted_period * self.sy;
 		let p = (self.wma.next(&src) - sma) * self.sx;
 
-		// sy2 is always greater than sma * sy, so q is always positive
+		// sy2 is never less than sma * sy; they are equal when every value in the window is the same
 		let q = self.k * sma.mul_add(-self.sy, self.sy2);
 
-		let value = p / q.sqrt();
+		// a constant window has no trend (and no defined correlation): 0 instead of 0/0
+		let value = if q > 0. { p / q.sqrt() } else { 0. };
 
 		let cross_signal = self.cross_under.next(&(value, self.cfg.zone))
 			- self.cross_above.next(&(value, -self.cfg.zone));
